@@ -139,8 +139,23 @@ def r1(R, repo):
     ok_and = all(isinstance(t.ast, ast.BoolOp) and isinstance(t.ast.op, ast.And) and
                  {'keep_empty_nodes', 'is_empty'} <= astu.names_loaded(t.ast) for t in kt)
     roots_found = any(n.kind == 'if' and astu.src(n.ast) in ('prefix == ()', 'not prefix', '() == prefix') for n in c.nodes)
-    R.judge(bool(kt) and roots_found and all(isinstance(t.ast, ast.BoolOp) for t in kt), ok_guard and ok_and, key_of(inner, 'empty_node only for empty non-root mappings under keep_empty_nodes'), inner,
-            'empty_node must be emitted only when keep_empty_nodes and the mapping is empty, and never for the root prefix')
+    key_e = key_of(inner, 'empty_node only for empty non-root mappings under keep_empty_nodes')
+    if ok_guard and ok_and and kt and roots_found:
+      R.ok(key_e, inner)
+    else:
+      # polarity-free reading: the sentinel must be unreachable when keep_empty_nodes is false and when the prefix is the root
+      sent = [nd for e in em for nd in c.nodes_for(e)]
+      may_off, _m1 = evid.reach_env(c, {'keep_empty_nodes': False})
+      may_root, _m2 = evid.reach_env(c, {'prefix == ()': True, '() == prefix': True, 'not prefix': True, 'prefix': False, 'prefix != ()': False})
+      emptiness = any(t.kind == 'if' and any(c.edge_guarded(nd, t, lab) for nd in sent for lab in ('T', 'F')) and (astu.names_loaded(t.ast) - {'keep_empty_nodes', 'prefix'}) for t in c.nodes)
+      if any(nd in may_off for nd in sent):
+        R.fail(key_e, (inner, sent[0].stmt), 'the empty-node sentinel can be emitted although keep_empty_nodes is false: flatten/unflatten then no longer round-trip for callers that did not ask for empty nodes')
+      elif roots_found and any(nd in may_root for nd in sent):
+        R.fail(key_e, (inner, sent[0].stmt), 'the empty-node sentinel can be emitted for the root prefix: flattening an empty mapping must give {}')
+      elif roots_found and emptiness:
+        R.ok(key_e, inner)
+      else:
+        R.unsure(key_e, inner, 'empty_node must be emitted only when keep_empty_nodes and the mapping is empty, and never for the root prefix')
     um = _sentinel_refs(repo, mod, U)
     R.require(len(um) >= 1, '%s no longer compares against empty_node' % unfl)
     homes_f = {_sentinel_home(repo, mod, e) for e in em}
